@@ -368,3 +368,114 @@ def erase_borrow_text(s):
     s = re.sub(r"\(bstr -?\d+ \d+ (x[0-9a-f]*)\)", r"(str \1)", s)
     s = re.sub(r"\(bbytes -?\d+ \d+ (x[0-9a-f]*)\)", r"(bytes \1)", s)
     return s
+
+# ---------------------------------------------------------------- arbitrary node vectors
+class GraphGen:
+    """Node vectors as the builder API allows them: arbitrary keys (sharing, cycles, optionally
+    dangling), arbitrary namespace relations, logical annotations anywhere. Names unique unless
+    dup_names."""
+    def __init__(self, rng, n=None, dangling=0.0, dup_names=0.0, weird_names=0.0, logical=0.3):
+        self.rng = rng
+        self.n = n if n is not None else rng.choice([1, 2, 3, 4, 6, 9, 12])
+        self.dangling, self.dup_names, self.weird_names, self.logical = dangling, dup_names, weird_names, logical
+
+    def key(self):
+        if self.rng.random() < self.dangling:
+            return self.rng.choice([self.n, self.n + 3, 10**6, 2**40])
+        return self.rng.randrange(self.n)
+
+    def name(self, i):
+        rng = self.rng
+        if rng.random() < self.weird_names:
+            return rng.choice(["", ".", "a..b", ".x", "x.", "has space", "q\"uote", "back\\slash", "é.ü", "a.b.c.d", "\n", "null", "int"])
+        base = "N%d" % (i if rng.random() >= self.dup_names else rng.randrange(max(1, i)))
+        ns = rng.choice(["", "", "a", "a.b", "c"])
+        return ns + "." + base if ns else base
+
+    def build(self):
+        rng = self.rng
+        nodes = []
+        for i in range(self.n):
+            t = rng.choice(PRIMS + ["array", "map", "union", "union", "record", "record", "enum", "fixed"])
+            lt = None
+            if rng.random() < self.logical:
+                lt = rng.choice(["uuid", "date", "time-millis", "time-micros", "timestamp-millis", "timestamp-micros", "duration",
+                                 "big-decimal", ("decimal", rng.choice([0, 2, 40]), rng.choice([1, 10])), ("unknown", rng.choice(["custom", "", "q\"x"]))])
+            if t in PRIMS:
+                nodes.append(Node(t, lt=lt))
+            elif t == "array":
+                nodes.append(Node("array", items=self.key(), lt=lt))
+            elif t == "map":
+                nodes.append(Node("map", values=self.key(), lt=lt))
+            elif t == "union":
+                nodes.append(Node("union", variants=[self.key() for _ in range(rng.randint(0, 4))], lt=lt if rng.random() < 0.1 else None))
+            elif t == "record":
+                nodes.append(Node("record", name=self.name(i), fields=[("f%d" % j, self.key()) for j in range(rng.randint(0, 3))], lt=lt))
+            elif t == "enum":
+                nodes.append(Node("enum", name=self.name(i), symbols=["S%d" % j for j in range(rng.randint(0, 3))], lt=lt))
+            else:
+                nodes.append(Node("fixed", name=self.name(i), size=rng.choice([0, 1, 12, 16, 17, 2**33]), lt=lt))
+        return nodes
+
+def reachable(nodes, root=0):
+    seen, stack = set(), [root]
+    while stack:
+        k = stack.pop()
+        if k in seen or k >= len(nodes):
+            continue
+        seen.add(k)
+        n = nodes[k]
+        if n.t == "array":
+            stack.append(n.items)
+        elif n.t == "map":
+            stack.append(n.values)
+        elif n.t == "union":
+            stack += n.variants
+        elif n.t == "record":
+            stack += [fk for _, fk in n.fields]
+    return seen
+
+def has_cycle_through(nodes, only):
+    """is there a cycle (among nodes reachable from the root) all of whose nodes satisfy `only`"""
+    reach = reachable(nodes)
+    color = {}
+    def kids(k):
+        n = nodes[k]
+        if n.t == "array":
+            return [n.items]
+        if n.t == "map":
+            return [n.values]
+        if n.t == "union":
+            return list(n.variants)
+        if n.t == "record":
+            return [fk for _, fk in n.fields]
+        return []
+    def dfs(k):
+        color[k] = 1
+        for c in kids(k):
+            if c >= len(nodes) or not only(nodes[c]):
+                continue
+            if color.get(c) == 1:
+                return True
+            if color.get(c) is None and dfs(c):
+                return True
+        color[k] = 2
+        return False
+    for k in sorted(reach):
+        if only(nodes[k]) and color.get(k) is None:
+            if dfs(k):
+                return True
+    return False
+
+def graph_class(nodes):
+    """-> dict of facts used as oracles"""
+    reach = reachable(nodes)
+    dangling = any(k >= len(nodes) for k in
+                   [x for i in reach for x in ([nodes[i].items] if nodes[i].t == "array" else [nodes[i].values] if nodes[i].t == "map" else
+                                                nodes[i].variants if nodes[i].t == "union" else [fk for _, fk in nodes[i].fields] if nodes[i].t == "record" else [])])
+    return {
+        "reachable": reach,
+        "dangling_reachable": dangling,
+        "unnamed_cycle": has_cycle_through(nodes, lambda n: n.t in ("array", "map", "union")),
+        "record_cycle": has_cycle_through(nodes, lambda n: n.t == "record"),
+    }
